@@ -38,7 +38,13 @@ def order_scalar(d, s, dde):
     return dde
 
 
-def expand(flat, dde, drv=None):
+def order_matrix(d, s, dde):
+    if s > 0:
+        return max(1, py_round_half_even((d / s) ** 2))
+    return dde if dde > 0 else 1
+
+
+def expand(flat, dde, drv=None, path="scalar"):
     """the explicitly written augmented system: -> (flat circuit with chain nodes, info)"""
     fl = copy.deepcopy(flat)
     by_src = {}
@@ -48,10 +54,10 @@ def expand(flat, dde, drv=None):
     drop, new_nodes, new_edges, info = set(), [], [], []
     for gi, (src, idxs) in enumerate(sorted(by_src.items())):
         slots = [[fl["edges"][i]["delay"], fl["edges"][i].get("spread") or "0"] for i in idxs]
-        orders = [order_scalar(F(d), F(s), dde) for d, s in slots]
+        orders = [(order_matrix if path == "matrix" else order_scalar)(F(d), F(s), dde) for d, s in slots]
         rates = [F(n) / F(d) if F(d) != 0 else F(0) for n, (d, s) in zip(orders, slots)]
         if drv is not None:
-            mo = drv.ask({"comp": "gamma", "slots": slots, "dde": dde, "path": "scalar"})
+            mo = drv.ask({"comp": "gamma", "slots": slots, "dde": dde, "path": path})
             if mo["orders"] != orders or mo["rates"] != [C.q2s(r) for r in rates]:
                 raise C.HarnessError("Lean order/rate rules and the independent computation disagree: " + json.dumps([slots, mo, orders]))
             groups = [(g["order"], F(g["rate"]), g["slots"]) for g in mo["groups"]]
